@@ -262,6 +262,7 @@ func c12Docs() []func() map[string]any {
 
 func (p *c12) RunCase(i int) *core.CaseResult {
 	r := &core.CaseResult{}
+	defer withUsage(r, "C12")()
 	c := &p.cases[i]
 	r.BoundDone = p.bound
 	for di, mk := range c12Docs() {
